@@ -140,6 +140,18 @@ Section Splice.
   Lemma ne_lupd : forall l i x k, i < length l ->
       nth_error (lupd l i x) k = if k =? i then Some x else nth_error l k.
   Proof. intros. unfold lupd. ne_norm. ne_split; ne_leaf. Qed.
+
+  (** overwrite the slots k .. k+|ws|-1 *)
+  Definition lwrite (k : nat) (ws : list A) l : list A := firstn k l ++ ws ++ skipn (k + length ws) l.
+
+  Lemma lwrite_length : forall k ws l, k + length ws <= length l -> length (lwrite k ws l) = length l.
+  Proof. intros. unfold lwrite. ne_norm. lia. Qed.
+
+  Lemma ne_lwrite : forall k ws l j, k + length ws <= length l ->
+      nth_error (lwrite k ws l) j =
+      if j <? k then nth_error l j
+      else if j <? k + length ws then nth_error ws (j - k) else nth_error l j.
+  Proof. intros. unfold lwrite. ne_norm. ne_split; ne_leaf. Qed.
 End Splice.
 
 Ltac splits := repeat match goal with |- _ /\ _ => split end.
